@@ -45,8 +45,6 @@ RULE = ("real static squareroot() of qmail-send.c on every age in [0,2^%(sq)s) p
 QUICK = dict(sq=28, pq=8, nr=300, nh=4000, st=5, np=1016, nw=640)
 THOROUGH = dict(sq=32, pq=10, nr=3000, nh=20000, st=1, np=5016, nw=16000)
 
-KNOWN_TAG = "known=C15-term-midpass"
-
 # qmail-send globals that harness/c15_loop.c reads at every select (kept global in the qs instance; everything else is localised)
 LOOP_GLOBALS = ["auto_split", "flagexitasap", "flagspawnalive", "flagcleanup", "numjobs", "recent", "nexttodorun", "cleanuptime", "pass", "jo",
                 "pqdone", "pqchan", "pqfail", "comm_buf", "concurrency", "concurrencyused", "tododir", "d"]
@@ -206,7 +204,6 @@ def main():
                 o2 = run_pipeline(["%s - < %s" % (h, tf), "%s - < %s" % (hl, tf)], drv, cwd=s.dir)
                 st2, _, _, or2, _ = parse_driver_output(o2)
                 c.cov["search_cases"] = st2.get("cases", 0)
-                or2 = [x for x in or2 if KNOWN_TAG not in x]
                 return shortest(or2) if or2 else None
         except Exception as ex:
             errors.append(str(ex))
@@ -231,19 +228,6 @@ def main():
         "the model of the select preparation (Nq.SelPrep: timeout, wake-up time) is the one of C16; C15 imports it read-only, states the promptness theorems C15_sleep_* over it and compares it with the real timeout at every select of the W scenarios",
         "select-loop snapshot: between recent = now() and select() the main loop only runs the *_selprep functions, which do not write the globals they read; the struct mirrors in harness/c15_loop.c (pass[].id, jo[].refs) follow qmail-send.c",
     ]
-    # candidate finding C15-term-midpass (a pass cut short by TERM is not persisted: recipients deferred in it are retried right after the
-    # clean restart): the driver tags exactly these ORACLE lines; the shortest one goes through Check.violation on its own (printed as
-    # KNOWN-FINDING once known_findings.json lists it with match "known=C15-term-midpass", VIOLATION until then); everything else goes
-    # to the standard verdict
-    known = [x for x in oracle if KNOWN_TAG in x]
-    oracle = [x for x in oracle if KNOWN_TAG not in x]
-    if known:
-        k0 = shortest(known)
-        c.violation("property oracle fails on the implementation's output (candidate finding C15-term-midpass: the schedule of a message "
-                    "whose pass was cut short by TERM does not survive the clean restart)",
-                    {"failing_case": kv(k0), "raw": k0[:4000], "cases": len(known),
-                     "how_to_replay": "./check C15 --replay <this file>", "proposed_fix": "notes/C15-fix-1.diff"}, found_input=True)
-    c.cov["known_finding_cases"] = len(known)
     standard_verdict(c, ok, stats, disagree, oracle, errors,
                      "Nq.Sched (squareroot/nextretry/PQ/passStart/jobOpen/report/pqrun/pqfinish/pqstart/passTrouble/jobCloseF/pqaddF/passDoFail) and Nq.SchedHist.step vs qmail-send.c + prioq.c; Nq.SelPrep.timeout vs the select timeout of qmail-send.c main() on snapshots of its globals",
                      neighbourhood,
